@@ -45,7 +45,13 @@ def run(ctx):
     t3 = ctx.path("plan_sim.ndjson")
     ctx.harness("vh-graph", ["plan", "--graphs", g3, "--out", t3, "--sample-requests", 4 if ctx.quick else 10])
     traces.append(t3)
-    ctx.cov["graphs"] = {"one_op_exhaustive": n1, "two_op_exhaustive": n2, "simulated": n3}
+    # (4) random graphs whose operators have up to 3 inputs (repeated operands next to other dependencies)
+    g4, n4 = gen(ctx, "graph/GraphGenSim3.cfg", "graphs_sim3.jsonl", spec="graph/GraphGenSim",
+                 extra=["-simulate", "num=%d" % num, "-depth", "8", "-seed", str(ctx.seed + 1)])
+    t4 = ctx.path("plan_sim3.ndjson")
+    ctx.harness("vh-graph", ["plan", "--graphs", g4, "--out", t4, "--sample-requests", 4 if ctx.quick else 10])
+    traces.append(t4)
+    ctx.cov["graphs"] = {"one_op_exhaustive": n1, "two_op_exhaustive": n2, "simulated": n3, "simulated_3_inputs": n4}
     if not ctx.quick:
         # implementation-shaped transcription of planner.rs (visit stack, active set, sort_plan frontier)
         # model-checked against the contract incl. termination on every 1-operator graph x request
@@ -57,7 +63,7 @@ def run(ctx):
 def judge(ctx, traces):
     total = dn = 0
     from concurrent.futures import ThreadPoolExecutor
-    with ThreadPoolExecutor(max_workers=3) as ex:
+    with ThreadPoolExecutor(max_workers=4) as ex:
         results = list(ex.map(lambda t: ctx.tlc_trace("graph/Trace_Planner", "graph/Trace_Planner.cfg", t, timeout=3000), traces))
     for res in results:
         ctx.judge(res["bad"], "vh-graph plan", "graph/Trace_Planner", "graph/Trace_Planner.cfg",
